@@ -32,6 +32,7 @@ class Spec:
     noise: int = 0                      # >0: write tagged lines to stderr (1: whole+split+long lines, 2: also a record-like line, 4: also an unterminated last line)
     seq: Tuple[Tuple[str, Tuple[str, ...]], ...] = ()   # "driver": commands run in order inside this one script, failures recorded not fatal
     ulimit_n: int = 0                   # the script lowers its limit of open files before it asks for its dependencies (what it starts cannot create pipes)
+    fail_late: bool = False             # the failure comes AFTER the output was written (and redo-stamp has run)
     fail_kill: bool = False             # the failure is the script being killed by a signal (kill -KILL $$) instead of exit 7
     fail_undeclared: bool = False       # the fail flag is read without declaring it as a dependency
     post: Tuple[str, ...] = ()          # dependencies requested AFTER the output was written (and redo-stamp has run)
@@ -244,7 +245,7 @@ def script_text(spec: Spec, variant: int, dofile: str, gates: bool = False) -> s
         L.append(('vgate n "work-end $rv_n"; ' + core + '; vgate n "work-begin $rv_n"') if gates else core)
     if spec.seq:
         kp()
-    if spec.fail:
+    def failcheck():
         fl = spec.fail.replace("%", "$2")
         if not spec.fail_undeclared:
             L.append(ifchange([fl]))
@@ -253,6 +254,8 @@ def script_text(spec: Spec, variant: int, dofile: str, gates: bool = False) -> s
         how = "kill -KILL $$; sleep 5" if spec.fail_kill else "exit 7"
         L.append(f'if [ "$(cat "{fl}")" = 1 ]; then echo "F $rv_n" >> "$RV_TRACE"; {we}{how}; fi')
         kp()
+    if spec.fail and not spec.fail_late:
+        failcheck()
     sync("mid")
     if spec.wreck:
         L.append('rm -rf "%s"; echo hi > "%s"' % (spec.wreck, spec.wreck))
@@ -281,6 +284,8 @@ def script_text(spec: Spec, variant: int, dofile: str, gates: bool = False) -> s
                 L.append('printf "%s(%s)\\n" "$1" "$c" | redo-stamp')
         else:
             L.append('printf "%s(%s)\\n" "$1" "$c"')
+    if spec.fail and spec.fail_late:
+        failcheck()
     L.append('rvk e')
     if spec.post:
         L.append(ifchange([d.replace("%", "$2") for d in spec.post]))
@@ -459,6 +464,11 @@ def curated() -> Dict[str, World]:
         "linkdir", {"src": ["0", "1"]},
         {"top.do": [S(deps=["lib/gen"])], "shared/gen.do": [S(deps=["../src"], out="file")]},
         ["top", "shared/gen"], ["top", "lib/gen"], symlinks={"lib": "shared"})
+    W["csum-fail-late"] = World(   # a checksummed node whose script fails AFTER it has written its output and run redo-stamp
+        "csum-fail-late", {"s": ["0", "1", "2"], "flag": ["0", "1"]},
+        {"top.do": [S(deps=["c"])], "c.do": [S(kind="csum", deps=["s"], fail="flag", fail_late=True, proj=True, out="file")]},
+        ["top", "c"], ["top", "c"],
+        prefixes=[[["ifchange", ["top"]], ["edit", "s", "2"], ["edit", "flag", "1"], ["ifchange", ["top"]], ["edit", "s", "0"]]])
     W["csum-burst"] = World(   # the checksummed node's data reaches redo-stamp through a pipe, in two bursts
         "csum-burst", {"s": V3},
         {"top.do": [S(deps=["c"])], "c.do": [S(kind="csum", deps=["s"], bursts=True)]},
